@@ -316,9 +316,9 @@ var svcPortSeq = uint32(time.Now().UnixNano()) & 0x7fffffff
 
 // buildService creates and starts the real DNS service; a start that fails
 // because somebody else took a port in the meantime is retried.
-func buildService(stop, resume int, tlsConf *tls.Config) (svc *dnssvc.Service, ls []*slistener, err error) {
+func buildService(stop, resume int, tlsConf *tls.Config, o svcOpts) (svc *dnssvc.Service, ls []*slistener, err error) {
 	for try := 0; try < 5; try++ {
-		svc, ls, err = buildServiceOnce(stop, resume, tlsConf)
+		svc, ls, err = buildServiceOnce(stop, resume, tlsConf, o)
 		if err == nil {
 			return svc, ls, nil
 		}
@@ -341,7 +341,23 @@ func startService(svc *dnssvc.Service) (err error) {
 	return svc.Start(context.Background())
 }
 
-func buildServiceOnce(stop, resume int, tlsConf *tls.Config) (svc *dnssvc.Service, ls []*slistener, err error) {
+// svcOpts selects the shape of the service: "" = the full set of five stream
+// listeners; "one-dns", "one-dot", "pair" = reduced sets for the
+// pipeline-timeout cases.
+type svcOpts struct {
+	shape         string
+	handleTimeout time.Duration
+	pipeline      uint
+	handler       dnsserver.Handler
+}
+
+func buildServiceOnce(stop, resume int, tlsConf *tls.Config, o svcOpts) (svc *dnssvc.Service, ls []*slistener, err error) {
+	if o.handleTimeout == 0 {
+		o.handleTimeout = 30 * time.Second
+	}
+	if o.handler == nil {
+		o.handler = echoHandler{}
+	}
 	lim, err := connlimiter.New(&connlimiter.Config{Logger: discard, Stop: uint64(stop), Resume: uint64(resume)})
 	if err != nil {
 		return nil, nil, err
@@ -351,7 +367,7 @@ func buildServiceOnce(stop, resume int, tlsConf *tls.Config) (svc *dnssvc.Servic
 		s := &agd.Server{
 			Name: agd.ServerName(name), Protocol: proto,
 			ReadTimeout: 60 * time.Second, WriteTimeout: 60 * time.Second,
-			TCPConf:  &agd.TCPConfig{IdleTimeout: time.Hour},
+			TCPConf:  &agd.TCPConfig{IdleTimeout: time.Hour, MaxPipelineEnabled: o.pipeline > 0, MaxPipelineCount: o.pipeline},
 			UDPConf:  &agd.UDPConfig{MaxRespSize: dns.MaxMsgSize},
 			QUICConf: &agd.QUICConfig{MaxStreamsPerPeer: 100},
 		}
@@ -369,30 +385,44 @@ func buildServiceOnce(stop, resume int, tlsConf *tls.Config) (svc *dnssvc.Servic
 		return netip.AddrPortFrom(netip.MustParseAddr(ip), port)
 	}
 	flav := map[string]string{}
-	servers1 := []*agd.Server{
-		mk("dns-addr", agd.ProtoDNS, &agd.ServerBindData{AddrPort: ap("127.0.0.1")}),
-		mk("dns-lc", agd.ProtoDNS, &agd.ServerBindData{ListenConfig: netext.DefaultListenConfigWithOOB(nil), AddrPort: ap("127.0.0.1")}),
-	}
-	servers2 := []*agd.Server{
-		mk("dot-addr", agd.ProtoDoT, &agd.ServerBindData{AddrPort: ap("127.0.0.1")}),
-		mk("dot-lc", agd.ProtoDoT,
-			&agd.ServerBindData{ListenConfig: netext.DefaultListenConfig(nil), AddrPort: ap("127.0.0.1")},
-			&agd.ServerBindData{ListenConfig: netext.DefaultListenConfig(nil), AddrPort: ap("127.0.0.2")}),
+	var servers1, servers2 []*agd.Server
+	switch o.shape {
+	case "one-dns":
+		servers1 = []*agd.Server{mk("dns-addr", agd.ProtoDNS, &agd.ServerBindData{AddrPort: ap("127.0.0.1")})}
+	case "one-dot":
+		servers2 = []*agd.Server{mk("dot-lc", agd.ProtoDoT, &agd.ServerBindData{ListenConfig: netext.DefaultListenConfig(nil), AddrPort: ap("127.0.0.1")})}
+	case "pair":
+		servers1 = []*agd.Server{mk("dns-lc", agd.ProtoDNS, &agd.ServerBindData{ListenConfig: netext.DefaultListenConfigWithOOB(nil), AddrPort: ap("127.0.0.1")})}
+		servers2 = []*agd.Server{mk("dot-addr", agd.ProtoDoT, &agd.ServerBindData{AddrPort: ap("127.0.0.1")})}
+	default:
+		servers1 = []*agd.Server{
+			mk("dns-addr", agd.ProtoDNS, &agd.ServerBindData{AddrPort: ap("127.0.0.1")}),
+			mk("dns-lc", agd.ProtoDNS, &agd.ServerBindData{ListenConfig: netext.DefaultListenConfigWithOOB(nil), AddrPort: ap("127.0.0.1")}),
+		}
+		servers2 = []*agd.Server{
+			mk("dot-addr", agd.ProtoDoT, &agd.ServerBindData{AddrPort: ap("127.0.0.1")}),
+			mk("dot-lc", agd.ProtoDoT,
+				&agd.ServerBindData{ListenConfig: netext.DefaultListenConfig(nil), AddrPort: ap("127.0.0.1")},
+				&agd.ServerBindData{ListenConfig: netext.DefaultListenConfig(nil), AddrPort: ap("127.0.0.2")}),
+		}
 	}
 	if err != nil {
 		return nil, nil, err
 	}
 	flav["dns-addr"], flav["dot-addr"] = flavAddr, flavAddr
 	flav["dns-lc"], flav["dot-lc"] = flavLC, flavLC
-	groups := []*agd.ServerGroup{
-		{Name: "g-plain", Servers: servers1},
-		{Name: "g-tls", Servers: servers2},
+	var groups []*agd.ServerGroup
+	if len(servers1) > 0 {
+		groups = append(groups, &agd.ServerGroup{Name: "g-plain", Servers: servers1})
+	}
+	if len(servers2) > 0 {
+		groups = append(groups, &agd.ServerGroup{Name: "g-tls", Servers: servers2})
 	}
 	handlers := dnssvc.Handlers{}
 	grpOf := map[string]string{}
 	for _, g := range groups {
 		for _, s := range g.Servers {
-			handlers[dnssvc.HandlerKey{Server: s, ServerGroup: g}] = echoHandler{}
+			handlers[dnssvc.HandlerKey{Server: s, ServerGroup: g}] = o.handler
 			grpOf[string(s.Name)] = string(g.Name)
 		}
 	}
@@ -417,7 +447,7 @@ func buildServiceOnce(stop, resume int, tlsConf *tls.Config) (svc *dnssvc.Servic
 		NonDNS:           http.NotFoundHandler(),
 		MetricsNamespace: fmt.Sprintf("c18svc%d", svcSerial),
 		ServerGroups:     groups,
-		HandleTimeout:    30 * time.Second,
+		HandleTimeout:    o.handleTimeout,
 	})
 	if err != nil {
 		return nil, nil, err
@@ -442,7 +472,7 @@ const (
 )
 
 func serviceCase(r *vkit.Run, idx, stop, resume, filler int, tlsClient, tlsServer *tls.Config) {
-	svc, ls, err := buildService(stop, resume, tlsServer)
+	svc, ls, err := buildService(stop, resume, tlsServer, svcOpts{})
 	if err != nil {
 		r.Inconclusive(fmt.Sprintf("service: case %d: cannot build/start dnssvc: %v", idx, err))
 		if svc != nil {
@@ -782,4 +812,5 @@ func serviceMonitor(r *vkit.Run) {
 			idx++
 		}
 	}
+	pipelineTimeoutService(r, tlsClient, tlsServer)
 }
